@@ -94,12 +94,49 @@ def gen_fan_case(rng):
     return g, cfg
 
 
+def strip_comment(line):
+    """the line without its ShExC comment: `#` opens one unless it is inside <...> or a quoted string"""
+    in_iri = in_str = False
+    for k, ch in enumerate(line):
+        if in_str:
+            in_str = ch != '"' or (k > 0 and line[k - 1] == '\\')
+        elif in_iri:
+            in_iri = ch != '>'
+        elif ch == '<':
+            in_iri = True
+        elif ch == '"':
+            in_str = True
+        elif ch == '#':
+            return line[:k]
+    return line
+
+
+def missing_separators(text):
+    """triple constraints of one shape are separated by `;` - outside comments: -> the constraint lines that lack it"""
+    bad, body = [], None
+    for line in text.split("\n"):
+        code = strip_comment(line).strip()
+        if code == '{':
+            body = []
+        elif code.startswith('}'):
+            if body:
+                bad += [l_ for l_ in body[:-1] if not l_.endswith(';')]
+            body = None
+        elif body is not None and code:
+            body.append(code)
+    return bad
+
+
 def check_shexc(text, g, cfg, kf, reproduced, viol):
     try:
         parsed = shex_text.parse(text)
     except shex_text.ShexParseError as e:
         viol.append({"what": "emitted ShExC does not parse: %s" % e, "shexc": text, **pipeline.case_json(g, cfg)})
         return None
+    lack = missing_separators(text)
+    if lack:
+        viol.append({"what": "emitted ShExC does not parse: %d triple constraint(s) followed by another one without a `;` outside comments, e.g. %r" % (len(lack), lack[0]),
+                     "shexc": text, **pipeline.case_json(g, cfg)})
     # prefix map: functional, no prefix declared twice
     seen = {}
     for p, ns in parsed['prefixes']:
@@ -222,7 +259,7 @@ def run(ctx):
         rng.shuffle(g)
         sm = "".join("<%s%s>@<%sshape%s>\n" % (EX, n_, EX, n_[0].upper()) for n_ in ['a%d' % j for j in range(na)] + ['b%d' % j for j in range(nb)] + ['c%d' % j for j in range(nc)])
         cfgd = gen.default_cfg()
-        cfgd.update(disable_or=False, allow_redundant_or=rng.random() < 0.5, th=rng.choice([(3, 5), (2, 3), (1, 1)]), remove_empty=True,
+        cfgd.update(disable_or=False, allow_redundant_or=rng.random() < 0.5, th=rng.choice([(3, 5), (2, 3), (1, 1), (0, 1)]), remove_empty=True, disable_comments=(i % 2 == 0),
                     inverse=rng.random() < 0.3, target_mode='none', targets=None)
         kw = impl.shaper_kwargs(cfgd)
         kw.pop('all_classes_mode', None); kw.pop('target_classes', None)
